@@ -123,14 +123,17 @@ pub proof fn lemma_mash_contains_dir(d: Comps, p: Comps)
 
 //@ item mash file=src/sys/fs/path.rs fn=mash props=C15,C05,C17,C18,C12,C09,C01,C10
 //@ sig pub fn mash<T: AsRef<Path>, U: AsRef<Path>>(dir: T, base: U) -> PathBuf
-//@ rw R3 1 for
+//@ rw R3 * for
+// a string literal where a path is expected (`trim_prefix(base, "/")`): R1
+//@ rw R1 * re⟦\btrim_prefix\(([^,()]+), "([^"]*)"\)⟧ => ⟦trim_prefix(\1, &PathBuf::from_s(Str::lit("\2")))⟧
+//@ rw R1 * re⟦\.join\(base\)⟧ => ⟦.join(base.to_path_buf())⟧
 //@ rw R4 * ⟦path.components().collect::<PathBuf>()⟧ => ⟦collect_components(path.components())⟧
-//@ ins after ⟦let mut path = dir.as_ref().to_path_buf();⟧
+//@ ins start
     let ghost d = dir.comps();
     let ghost p = base.comps();
     let ghost mut k: int = 0;
 //@ endins
-//@ loop 1
+//@ loop? 1
         invariant
             d == dir.comps(), p == base.comps(), std_comps(p), 0 <= k <= p.len(),
             __it1.rest() == p.skip(k),
@@ -138,7 +141,7 @@ pub proof fn lemma_mash_contains_dir(d: Comps, p: Comps)
         ensures k == p.len(),
         decreases p.len() - k
 //@ endloop
-//@ ins after ⟦None => break };⟧
+//@ ins? after ⟦None => break };⟧
         proof {
             k = k + 1;
             assert(p.take(k) =~= p.take(k - 1).push(component));
@@ -152,7 +155,7 @@ pub proof fn lemma_mash_contains_dir(d: Comps, p: Comps)
             }
         }
 //@ endins
-//@ ins before ⟦collect_components(path.components())⟧
+//@ ins? before ⟦collect_components(path.components())⟧
     proof { assert(p.take(p.len() as int) =~= p); }
 //@ endins
 pub fn mash(dir: &PathBuf, base: &PathBuf) -> (r: PathBuf)
